@@ -397,6 +397,54 @@ C01.defined: wherever constraints_and_type_name renders a component with the `<P
                 &format!("`{}` (emitted by {}) is not exported by rasn::prelude (pinned version), not a wrapper import and not in the Rust prelude: the bindings would not resolve this name", id, fname));
         }
     }
+    // ---------------- shadow ----------------
+    // the templates name these types unqualified, and every type assignment becomes an item of the same module: an item
+    // shadows a glob import, so an ASN.1 type whose Rust name is one of them (`Integer ::= BOOLEAN`, `Option ::= ..`) takes the
+    // name over for the whole module. to_rust_title_case — the one function that names the items — is evaluated on each.
+    if let Some(f) = m.fns.iter().find(|f| f.name == "to_rust_title_case" && f.self_ty.as_deref() == Some("Rasn")) {
+        use crate::eval::{Env, Evaluator, Val};
+        let cr0 = const_resolver(m);
+        // associated string tables (`Self::RUST_KEYWORDS`) by their last path segment
+        let tables: BTreeMap<String, Val> = m.consts.iter().filter_map(|c| str_array(&c.expr).map(|v| (c.name.clone(), Val::List(v.into_iter().map(Val::Str).collect())))).collect();
+        let consts = move |name: &str| -> Option<Val> {
+            let last = name.rsplit("::").next().unwrap_or(name).trim();
+            tables.get(last).cloned().or_else(|| cr0(name))
+        };
+        let hook = |_: &Evaluator, name: &str, a: &[Val]| -> Option<Result<Val, String>> {
+            match name {
+                "TokenStream::from_str" => Some(Ok(Val::Ctor("Ok".into(), vec![a.first().cloned().unwrap_or(Val::Unit)], BTreeMap::new()))),
+                _ => None,
+            }
+        };
+        let ev = Evaluator { consts: &consts, call_hook: &hook, inline: None };
+        let param = f.sig.inputs.iter().filter_map(|a| match a { syn::FnArg::Typed(t) => Some(tok(&t.pat)), _ => None }).next().unwrap_or("input".into());
+        let mut kept: Vec<String> = vec![];
+        let type_like: Vec<&String> = names.keys().filter(|n| (prelude.contains(*n) || ["Option", "Box", "Vec", "String"].contains(&n.as_str())) && !["Self"].contains(&n.as_str())).collect();
+        ctx.oblige("C01.shadow", "prelude-names-escaped", true);
+        let mut failed = None;
+        for n in &type_like {
+            let mut env = Env::new();
+            env.insert("self".into(), Val::ctor("Rasn"));
+            env.insert(param.clone(), Val::Str((*n).clone()));
+            match ev.eval_fn_body(&f.block, &mut env) {
+                Ok(Val::Str(out)) | Ok(Val::Sym(out)) => {
+                    if &out == *n {
+                        kept.push((*n).clone());
+                    }
+                }
+                Ok(o) => { failed = Some(format!("to_rust_title_case({}) = {}", n, o.show())); break }
+                Err(e) => { failed = Some(format!("to_rust_title_case({}): {}", n, e)); break }
+            }
+        }
+        if let Some(e) = failed {
+            ctx.fail_closed("C01.shadow", &e);
+        } else if !kept.is_empty() {
+            ctx.violate("C01.shadow", "type-named-like-prelude-item", &f.file, f.line,
+                &format!("a type assignment named like a type the templates use unqualified keeps that name ({} of {}: {} …): `Integer ::= BOOLEAN  B ::= SEQUENCE {{ x INTEGER }}` emits `pub struct Integer(pub bool)` and `pub x: Integer` — the item shadows rasn::prelude::Integer for the whole module; `Option ::= INTEGER` makes every `Option<..>` fail to resolve", kept.len(), type_like.len(), kept.iter().take(8).cloned().collect::<Vec<_>>().join(", ")));
+        }
+    } else {
+        ctx.fail_closed("C01.shadow", "anchor not found: Rasn::to_rust_title_case");
+    }
     // names built from string literals: string_type / int_type_token results are covered by quote!; format_ident!("Integer")
     ctx.sample(json!({"emitted_type_names": names.keys().collect::<Vec<_>>(), "rasn_prelude_size": prelude.len()}));
 
